@@ -342,7 +342,7 @@ func checkC03(c *core.Ctx) {
 	c.Cover("sessions", len(outs))
 	c.Cover("race_sessions", len(routs))
 	if len(outs) > 0 {
-		c.AddSample(json.RawMessage(core.LineOf(outs[0].Trace, 1)[:minInt(len(core.LineOf(outs[0].Trace, 1)), 600)] + "\"}"))
+		c.AddSample(json.RawMessage(core.LineOf(outs[0].Trace, 1)))
 	}
 	c.Distinct = c.TracesOK
 	c.Cover("rule", "one case per batch session of the real binary (mix of repeated and distinct lines, concurrency 1/2/3/8/16, random order)")
